@@ -87,6 +87,19 @@ theorem accepted_iff_abnf (r1 r2 : Nat) (hmem : (r1, r2) ∈ pairs) (perm : List
     (gplainOn_of_gplain (plainGB_sound _ Obl.Meta.meta_plain)) perm hp s r1 trivial (definedB_sound hd) f hf
   exact ⟨A.1.trans (reader_equiv_rfc r1 r2 hmem s 0 s.length), A.2⟩
 
+/-- the same without the GrammarError case (the reader's table is closed): for every text and offset the engine answers
+with a match list whose ends are exactly the RFC's, or with ParseError exactly when the RFC grammar has no match there -/
+theorem reader_exact_wrt_rfc' (r1 r2 : Nat) (hmem : (r1, r2) ∈ pairs) (s : Src) (i : Nat) (hi : i ≤ s.length) (f : Nat)
+    (hf : fuelFor AbnfGen.metaGK AbnfGen.metaGD (s.length - i) AbnfGen.metaGK 0 ≤ f) :
+    (∃ ms, lparse AbnfGen.metaG f s (.ref r1) i = .ok ms ∧ ∀ j, j ∈ stops ms ↔ M Ref.rfcG s (.ref r2) i j) ∨
+    (lparse AbnfGen.metaG f s (.ref r1) i = .fail ∧ ∀ j, ¬ M Ref.rfcG s (.ref r2) i j) := by
+  have hd := List.all_eq_true.mp pairs_defined _ hmem
+  have hg := closed_noGerr AbnfGen.metaG (closedGB_sound _ Obl.Meta.meta_closed) f s (.ref r1) i (definedB_sound hd)
+  rcases reader_exact_wrt_rfc r1 r2 hmem s i hi f hf with h | h | h
+  · exact Or.inl h
+  · exact Or.inr h
+  · exact absurd h hg
+
 /-- non-vacuity: `rulelist` is paired with `rulelist` -/
 example : (0, 16) ∈ pairs := by decide +kernel
 
